@@ -155,6 +155,61 @@ fn main() {
             }}
         }
     }
+    // the TripleSource / QuadSource convenience layers over iterators of Results: every outcome sequence of length
+    // <= 4, sink fault at every position; each item passing the filters exactly once, in order; errors keep side and value
+    {
+        use sophia_api::source::{QuadSource, TripleSource};
+        use sophia_api::term::{IriRef, SimpleTerm, Term};
+        use sophia_api::triple::Triple;
+        use sophia_api::quad::Quad;
+        type T = SimpleTerm<'static>;
+        fn it(i: u8) -> T { SimpleTerm::Iri(IriRef::new_unchecked(format!("x:{}", i).into())) }
+        fn val<X: Term>(t: X) -> u8 { t.iri().unwrap().as_str()[2..].parse().unwrap() }
+        let tr = |outs: &[O]| outs.to_vec().into_iter().take_while(|o| *o != O::End).map(|o| match o { O::Ok(v) => Ok([it(v), it(0), it(v)]), O::Err(e) => Err(EA(e)), O::End => unreachable!() });
+        let qd = |outs: &[O]| outs.to_vec().into_iter().take_while(|o| *o != O::End).map(|o| match o { O::Ok(v) => Ok(([it(v), it(0), it(v)], if v % 2 == 0 { None } else { Some(it(9)) })), O::Err(e) => Err(EA(e)), O::End => unreachable!() });
+        for outs in &seqs { for fail_at in 0..5usize { for variant in 0..8 {
+            n += 1;
+            let mut got: Vec<u8> = vec![];
+            let mut calls = 0usize;
+            let keep = |v: u8| -> Option<u8> { match variant { 0 | 4 | 5 => Some(v), 1 | 6 => if pred(&v) { Some(v) } else { None }, 2 => Some(mapf(v)), 3 | 7 => fmap(v), _ => unreachable!() } };
+            let r: Result<(), StreamError<EA, EB>> = {
+                let mut sink = |x: u8| -> Result<(), EB> { calls += 1; if got.len() == fail_at { return Err(EB(99)); } got.push(x); Ok(()) };
+                match variant {
+                    0 => tr(outs).try_for_each_triple(|t| sink(val(t.s()))),
+                    1 => tr(outs).filter_triples(|t| pred(&val(t.s()))).try_for_each_triple(|t| sink(val(t.s()))),
+                    2 => tr(outs).map_triples(|t| mapf(val(t.s()))).try_for_each_item(|x| sink(x)),
+                    3 => tr(outs).filter_map_triples(|t| fmap(val(t.s()))).try_for_each_item(|x| sink(x)),
+                    4 => tr(outs).to_quads().try_for_each_quad(|q| { if q.g().is_some() { return sink(200); } sink(val(q.s())) }),
+                    5 => qd(outs).try_for_each_quad(|q| sink(val(q.o()))),
+                    6 => qd(outs).filter_quads(|q| pred(&val(q.s()))).to_triples().try_for_each_triple(|t| sink(val(t.o()))),
+                    _ => { let mut s = qd(outs).filter_map_quads(|q| fmap(val(q.s()))); loop { match s.try_for_some_item(|x| sink(x)) { Ok(true) => {}, Ok(false) => break Ok(()), Err(e) => break Err(e) } } }
+                }
+            };
+            let mut want = vec![]; let mut verdict: Result<(), StreamError<EA, EB>> = Ok(()); let mut wcalls = 0;
+            for o in outs { match o {
+                O::End => break,
+                O::Err(e) => { verdict = Err(StreamError::SourceError(EA(*e))); break; }
+                O::Ok(v) => if let Some(y) = keep(*v) { wcalls += 1; if want.len() == fail_at { verdict = Err(StreamError::SinkError(EB(99))); break; } want.push(y); }
+            } }
+            let same = match (&r, &verdict) { (Ok(()), Ok(())) => true, (Err(StreamError::SourceError(a)), Err(StreamError::SourceError(b))) => a == b, (Err(StreamError::SinkError(a)), Err(StreamError::SinkError(b))) => a == b, _ => false };
+            if got != want || !same || calls != wcalls {
+                println!("{{\"mismatch\":\"triple/quad layer variant {}: consumer saw {:?} in {} calls / result {:?}; expected {:?} in {} calls / {:?}\",\"outcomes\":\"{:?}\",\"sink_fails_at\":{}}}", variant, got, calls, r.as_ref().map_err(|e| format!("{:?}", e)), want, wcalls, verdict.as_ref().map_err(|e| format!("{:?}", e)), outs, fail_at);
+                std::process::exit(1);
+            }
+        }}}
+        // for_each_* (infallible sink) and size hints never under-report the remaining items' upper bound
+        for outs in &seqs {
+            n += 1;
+            let mut seen = vec![];
+            let r = tr(outs).for_each_triple(|t| seen.push(val(t.s())));
+            let mut want = vec![]; let mut err = None;
+            for o in outs { match o { O::End => break, O::Err(e) => { err = Some(EA(*e)); break; } O::Ok(v) => want.push(*v) } }
+            if seen != want || r.err() != err { println!("{{\"mismatch\":\"for_each_triple saw {:?} expected {:?}\",\"outcomes\":\"{:?}\"}}", seen, want, outs); std::process::exit(1); }
+            let total = outs.iter().take_while(|o| **o != O::End).count();
+            let (_, hi) = tr(outs).filter_triples(|_| true).size_hint_triples();
+            if let Some(h) = hi { if h < total.min(want.len()) { println!("{{\"mismatch\":\"size_hint upper bound {} below the {} items delivered\",\"outcomes\":\"{:?}\"}}", h, want.len(), outs); std::process::exit(1); } }
+        }
+    }
     // real stores as consumers: after a source failure at item k the store holds exactly the k items before it
     // (insert_all / collect), and the error is a source error carrying the original value; remove_all likewise
     {
